@@ -2179,6 +2179,77 @@ def label_cases(out, seed):
                      {"units": units, "lookup": looked}, given, key="C04:labels")
 
 
+def units_argument_cases(out, seed):
+    """`units=` is an Iterable[str]: a list, a tuple, a one-shot iterator, a generator, a dict view, an array — and one
+    running iterator serving consecutive constructions (each table draws exactly its own columns' units).  Whatever
+    the form, every column keeps the unit given for its position: by `units`, by lookup, in the CSV unit row, and
+    after a column is added.  Oracle only (the model speaks about the register, not about how it was filled)."""
+    import io
+    import numpy as np
+    import pandas as pd
+    import pdtable
+    from pdtable import Table
+    rng = make_rng(seed, "C04:units-forms")
+    pool = ["kg", "mm", "N/m", "s", "A", "m/s", "K", "Pa"]
+    forms = {"list": list, "tuple": tuple, "iter": iter, "generator": lambda us: (u for u in us),
+             "map": lambda us: map(str, us), "dict_values": lambda us: {i: u for i, u in enumerate(us)}.values()
+             }      # (a numpy array / pd.Index is refused by `if units and unit_map`: ambiguous truth value — not generated)
+
+    def judge(t, names, given, case, what):
+        try:
+            units = list(quiet(lambda: t.units))
+            looked = [quiet(lambda n=n: t[n].unit) for n in names]
+            buf = io.StringIO()
+            quiet(pdtable.write_csv, t, buf)
+            row = buf.getvalue().split("\n")[3].split(";")[:len(names)]
+        except Exception as e:
+            out.fail("a table built with units given as " + what + " cannot be consulted", case, exc_name(e), given,
+                     key="C04:units_form:" + type(e).__name__)
+            return
+        if units != given or looked != given or row != given:
+            out.fail("a table built with units given as " + what + " does not report the units given by position", case,
+                     {"units": units, "lookup": looked, "csv_unit_row": row}, given, key="C04:units_form")
+
+    for i in range(60):
+        ncol = rng.choice([1, 2, 2, 3, 4, 6])
+        names = ["c%d" % j for j in range(ncol)]
+        given = [fresh(rng.choice(pool)) for _ in names]
+        form = rng.choice(sorted(forms))
+        df = pd.DataFrame({n: [1.0 + j, 2.0] for j, n in enumerate(names)})
+        case = {"seed": seed, "stream": "units_forms", "index": i, "ops": [], "form": form, "units": given}
+        out.count("units_form:" + form)
+        try:
+            t = quiet(Table, df, name="t", units=forms[form](given))
+        except Exception as e:
+            out.fail("Table(df, units=<" + form + ">) is refused", case, exc_name(e), given,
+                     key="C04:units_form_refused:" + form)
+            continue
+        judge(t, names, given, case, "a " + form)
+        quiet(t.add_column, "z", [5.0, 6.0], "V")
+        judge(t, names + ["z"], given + ["V"], dict(case, ops=["add_column"]), "a " + form + " (after add_column)")
+    # one running iterator, two or three consecutive constructions
+    for i in range(30):
+        widths = [rng.choice([1, 2, 3]) for _ in range(rng.choice([2, 3]))]
+        all_units = [fresh(rng.choice(pool)) for _ in range(sum(widths))]
+        it = iter(all_units)
+        pos = 0
+        for k, w in enumerate(widths):
+            names = ["c%d" % j for j in range(w)]
+            given = all_units[pos:pos + w]
+            pos += w
+            df = pd.DataFrame({n: [1.0 + j, 2.0] for j, n in enumerate(names)})
+            case = {"seed": seed, "stream": "units_running_iterator", "index": i, "ops": [], "widths": widths,
+                    "units": all_units, "table": k}
+            out.count("units_form:running_iterator")
+            try:
+                t = quiet(Table, df, name="t%d" % k, units=it)
+            except Exception as e:
+                out.fail("Table(df, units=<running iterator>) is refused", case, exc_name(e), given,
+                         key="C04:units_form_refused:running")
+                break
+            judge(t, names, given, case, "a running iterator shared by consecutive constructions")
+
+
 def _same_step(exp, ans):
     """a step agrees when every field the harness could observe agrees (the remembered-state fields `last` / `ls` are
     only present in the expectation when the implementation's remembered state was observable)"""
@@ -2315,6 +2386,7 @@ def _run(out, tier, seed, model_ok, translator, search, prop, weights, thorough)
             compare(out, what, case, exp, ans)
     if prop == "C04":
         label_cases(out, seed)
+        units_argument_cases(out, seed)
     # oracle health: a writer probe that never gets as far as the pairing check checks nothing
     for w, floor in (("csv", 0.8), ("csv_t", 0.8), ("json", 0.8), ("xlsx", 0.6)):
         tot, ok = out.dist.get("writer_probe:" + w, 0), out.dist.get("writer_judged:" + w, 0)
